@@ -323,6 +323,7 @@ def interface_tree(template, root_name):
 
     ctx = RenderContext(template)
     count = [0]
+    keys_ok = [True]
 
     def hdr(node):
         tag = None
@@ -360,14 +361,15 @@ def interface_tree(template, root_name):
         bound = scope[len(args)] if len(scope) > len(args) else None
         want = hash((name, *args)) if iso else None
         if p.key != want:
-            raise OutsideModel("partial-key-shape")
+            keys_ok[0] = False  # the model's key (name, argument names) is not what the code computes
         try:
             body = [go(c, stack + (name,)) for c in node.children(ctx, include_partials=True)]
         except OutsideModel:
             raise
         return ["p", hdr(node), iso, name, args, bound, body]
 
-    return [go(n, (root_name,)) for n in template.nodes]
+    tree = [go(n, (root_name,)) for n in template.nodes]
+    return tree, keys_ok[0]
 
 
 # ------------------------------------------------------------------------------------------------
@@ -426,7 +428,7 @@ def observe(prog):
     try:
         with warnings.catch_warnings():
             warnings.simplefilter("ignore")
-            obs["tree"] = interface_tree(template, root_name)
+            obs["tree"], obs["keys_ok"] = interface_tree(template, root_name)
     except OutsideModel as e:
         obs["outside"] = str(e)
     except LiquidError as e:
@@ -597,5 +599,10 @@ def direct_oracle(obs):
                 cause += ":same-key-other-binding" if others else ":other"
         elif obs.get("include_under_isolation"):
             cause = "include-under-isolation"
+            kinds = [c.split(":")[0] for c in g["chain"]]
+            if "render" in kinds and "include" in kinds[kinds.index("render"):]:
+                # the lookup itself happened inside an include below a render: impossible while include is a
+                # disabled tag there, so this is not the listed (scope-pollution) defect
+                cause = "lookup-inside-include-under-isolation"
         return ("global-omitted|" + cause, g)
     return None
